@@ -23,8 +23,9 @@ type c14Case struct {
 
 func init() {
 	mc.Register(&mc.Property{
-		ID:    "C14",
-		Level: "exploration",
+		ID:     "C14",
+		Word32: true,
+		Level:  "exploration",
 		Rule: "E1 bounded-exhaustive enumeration: (join) per width w in {1,2,4,8,16,32,64}: every value list of length ≤5 over {0,1,^0,0xa5a5…,1<<63}, and for a set of lengths up to 192/w+1 every list that is 0 everywhere except ≤2 positions taken from the non-zero alphabet values: len(Join) = ceil(len·w/64), Getw(result,i,w) = low w bits of values[i] for every i, popcount(result) = Σ popcount(low w bits) (no other bit set); " +
 			"(slice) every bitmap of ≤3 words over {0,^0,1,1<<63,0xdeadbeefcafebabe} × every 0 ≤ from ≤ to ≤ 64·len: result length ceil((to-from)/64), bit j = input bit from+j, all other bits 0, input unchanged. (long) Join on lists filling about 20 (thorough 70) words with ≤2 non-zero values at positions within 1 of a word boundary, and Slice on 20/70-word bitmaps (zero or all-ones with one island at every position) × every range with both ends within 1 of a word boundary. (big) Join on lists and Slice on bitmaps whose lengths lie within 9 of every power of two from 2^10 to 2^14 (Slice: 2^12 words). A case is one Join call with all its Getw probes, or one Slice call; non-trivial when some value/bit is non-zero and the list/range is non-empty.",
 		Assumptions: []string{"other values / word patterns and longer lists are not enumerated"},
